@@ -2157,3 +2157,64 @@ Proof.
   unfold u32_sub, IRR, Consts.IRREVOCABLY_RESOLVED in Hh.
   destruct (N.leb (t_height k) (gk_height t + 1)); [|discriminate]. inversion Hh. lia.
 Qed.
+
+(* the environment's side of the bargain, step by step (see step_side; the clauses of connect_side that
+   are invariants of the tower are gone) *)
+Definition step_env (t : tower) (o : op) : Prop :=
+  match o with
+  | OAdd signer _ _ _ _ => match signer with Some u => bal t u < U32MOD | None => True end
+  | OConnect _ txs => chain_side t txs
+  | ODisconnect => last_hash t <> None
+  | _ => True
+  end.
+
+Fixpoint run_env (le : bool) (t : tower) (h : list (op * script)) : Prop :=
+  match h with
+  | [] => True
+  | (o, sc) :: r => step_env t o /\ run_env le (fst (step le t o sc)) r
+  end.
+
+Lemma step_side_from t o : Inv t -> RInv t -> step_env t o -> step_side t o.
+Proof.
+  intros HI HR. destruct o; cbn [step_env step_side]; try tauto. apply connect_side_from; assumption.
+Qed.
+
+Theorem ledger_conserved_env_from le c : forall h t m,
+  Inv t -> RInv t -> cfg t = c -> m_height m = gk_height t -> Led t (m_ledger m) ->
+  run_env le t h -> Forall not_abort (snd (run le t h)) ->
+  Forall (fun ok => ok = true) (c07_run le c t m h).
+Proof.
+  induction h as [|[o sc] h IH]; intros t m HI HR Hc Hh HL Hside Hna; [constructor|].
+  cbn [c07_run]. cbn [run_env] in Hside. destruct Hside as [Hs1 Hs2].
+  apply (step_side_from t o HI HR) in Hs1.
+  destruct (step le t o sc) as [t1 x] eqn:Es. cbn [fst] in Hs2.
+  destruct (run_no_abort_inv le t o sc h t1 x Es Hna) as [Hx [Hxa Hna1]].
+  destruct (mon_step_sound le c t m o sc t1 x HI Hc Hh HL Hs1 Es Hx) as [L1 [L2 L3]].
+  assert (HI1 : Inv t1).
+  { pose proof (step_pres Inv inv_stable le t o sc HI) as Hp. rewrite Es in Hp. apply Hp. exact Hx. }
+  assert (Hc1 : cfg t1 = c).
+  { pose proof (step_cfg le t o sc) as Hp. rewrite Es in Hp. cbn [fst snd] in Hp. rewrite (Hp Hx). exact Hc. }
+  pose proof (step_RInv le t o sc t1 x HR Es Hx) as HR1.
+  constructor.
+  - apply Led_conservation; assumption.
+  - rewrite Hxa. apply IH; assumption.
+Qed.
+
+(* THE PROPERTY (C07, conservation), final form: from bootstrap, along every history in which no step aborted,
+   fed a consistent chain (chain_side), never disconnecting below the responder's index and with balances
+   below 2^32 at each add_appointment, the conservation check of TowerMon.mon_C07 passes after every step. *)
+Theorem ledger_conserved_env le c h0 blocks t0 h :
+  init c h0 blocks = Some t0 -> run_env le t0 h -> Forall not_abort (snd (run le t0 h)) ->
+  Forall (fun ok => ok = true) (c07_run le c t0 (m_init h0) h).
+Proof.
+  intros Hi Hside Hna. pose proof (inv_init c h0 blocks t0 Hi) as HI.
+  unfold init in Hi. destruct (ti_new _ _); [|discriminate]. destruct (ti_new _ _); [|discriminate].
+  inversion Hi; subst t0; clear Hi.
+  apply ledger_conserved_env_from; try assumption; try reflexivity.
+  - apply RInv_clear; reflexivity.
+  - intros v Hrow. discriminate.
+Qed.
+
+(* so nobody holds more than they were granted: in every such reachable state, held <= granted *)
+Corollary held_le_granted t l v : Led t l -> has_row t v = true -> held_t t v <= fst (lget l v).
+Proof. intros HL Hrow. specialize (HL v Hrow). unfold bal in HL. lia. Qed.
